@@ -853,15 +853,31 @@ func (ig Integration) logAddrs() []string {
 	return addrs
 }
 
+// The column that stores a block data field: the one the
+// user bound it to, or the field's own name.
+func (ig Integration) column(field string) string {
+	for _, bd := range ig.Block {
+		if bd.Name == field && len(bd.Column) > 0 {
+			return bd.Column
+		}
+	}
+	return field
+}
+
 func (ig Integration) Delete(ctx context.Context, pg wpg.Conn, n uint64) error {
 	const q = `
 		delete from %s
-		where src_name = $1
-		and ig_name = $2
-		and block_num >= $3
+		where %s = $1
+		and %s = $2
+		and %s >= $3
 	`
 	_, err := pg.Exec(ctx,
-		fmt.Sprintf(q, wpg.Quote(ig.Table.Name)),
+		fmt.Sprintf(q,
+			wpg.Quote(ig.Table.Name),
+			wpg.Quote(ig.column("src_name")),
+			wpg.Quote(ig.column("ig_name")),
+			wpg.Quote(ig.column("block_num")),
+		),
 		wctx.SrcName(ctx),
 		ig.name,
 		n,
